@@ -79,14 +79,16 @@ def msg_wiki_notice(msg: str, trace: str, has_trace: bool, sortid: str, title: s
     return _one("wiki_notice", msg, trace, has_trace, sortid, title, sec, has_sec, sub, has_sub, st)
 
 
-def start_page_resets(title: str, junk: str, n: int, st: list[str], sec: str) -> bool:
+def start_page_resets(title: str, junk: str, n: int, st: list[str], sec: str, prev_title: str, same_title: bool, clean_path: bool) -> bool:
     """
     pre: 0 <= n <= 2 and len(st) <= 3 and 1 <= len(title) <= 4
     post: _
     """
     for l in LISTS.values():
         setattr(ctx, l, [{"msg": junk}] * n)
-    ctx.expand_stack = list(st)
+    # the page that was processed before: any title (possibly the same one), any expansion path (possibly the clean one)
+    ctx.title = title if same_title else prev_title
+    ctx.expand_stack = [ctx.title] if clean_path else list(st)
     ctx.section = sec
     ctx.subsection = sec
     ctx.start_page(title)
@@ -113,6 +115,15 @@ replay_msg_note = _replay_msg("note")
 replay_msg_wiki_notice = _replay_msg("wiki_notice")
 
 
-def replay_start_page_resets(title, junk, n, st, sec):
-    ok = start_page_resets(title, junk, n, st, sec)
-    return (f"start_page({title!r}) after {n} stale message(s) and expand_stack={st!r}", not ok, "start_page leaves stale messages / expansion path / section behind")
+def replay_start_page_resets(title, junk, n, st, sec, prev_title, same_title, clean_path):
+    w = Wtp(quiet=True, quiet_output=True)
+    w.add_page("Template:loop", 10, "{{loop}}")
+    first = title if same_title else (prev_title or "Other")
+    w.start_page(first)
+    w.start_section("S")
+    w.start_subsection("SS")
+    w.expand("{{loop}}")  # records a warning
+    had = len(w.warnings)
+    w.start_page(title)
+    bad = bool(w.errors or w.warnings or w.debugs or w.notes or w.wiki_notices) or w.section is not None or w.subsection is not None or w.expand_stack != [title]
+    return (f"start_page({first!r}); start_section('S'); expand('{{{{loop}}}}') [{had} warning(s)]; start_page({title!r})", bad, f"after start_page: warnings={len(w.warnings)} section={w.section!r} subsection={w.subsection!r} path={w.expand_stack!r}")
